@@ -175,12 +175,18 @@ def variants(i, with_xlsx):
         for so in (0, 1):
             for bo in (0, 1):
                 out.append(('xlsx/s%d/b%d' % (so, bo), (so, bo)))
+        out.append(('ondemand/first-book-only', None))
     return out
 
 
 def run_variant(desc, label, arg, scratch):
     if label.startswith('dict/'):
         m = wbrun.load_dict(desc, arg)
+    elif label.startswith('ondemand'):
+        # only the first book is loaded; finish() completes the model with
+        # whatever the loaded formulas reach in the other books
+        m, _ = wbrun.load_xlsx(desc, os.path.join(scratch, 'x'),
+                               book_order=lambda p: p[:1])
     else:
         so, bo = arg
         m, _ = wbrun.load_xlsx(
@@ -218,6 +224,25 @@ def check_desc(desc, i, ctx, with_xlsx=True, fp_every=1):
         ctx.count('variant.' + label.split('/')[0])
         ctx.see('eval_order', '%s:%s' % (i, order))
         obs = wbrun.solution_cells(desc, sol)
+        if label.startswith('ondemand'):
+            # a partial model: every cell it contains must agree with the
+            # full model (cells it did not need are absent)
+            ctx.count('variant.ondemand')
+            # cells reached through a spill cell of an array formula in a book
+            # that is only loaded on demand belong to C15 (anchor not pulled
+            # in); they are left out here
+            spill = {k for k, a in ev.owner.items() if k[0] != 0}
+            tainted = wbrun.downstream(desc, spill) if spill else set()
+            needed = wbrun.upstream(desc, [k for k in obs if k[0] == 0])
+            bad = [k for k, v in obs.items() if v != ('missing',)
+                   and k not in tainted and k in needed
+                   and first and not xl.same(v, first[2].get(k, ('missing',)))]
+            if bad:
+                ctx.violation('order-dependent:ondemand-vs-%s' % first[1].split('/')[0], {
+                    'case': case, 'cells': [gw.key_of(desc, *k) for k in bad[:5]],
+                    'observed': [xl.show(obs[k]) for k in bad[:5]],
+                    'accepted': [[xl.show(first[2].get(k)) for k in bad[:5]]]})
+            continue
         dg = wbrun.digest(obs)
         ctx.see('digest', '%s:%s' % (i, dg))
         if first is None:
